@@ -11,11 +11,87 @@ pub fn pvhash(s: &str) -> u64 {
     pvkit::fnv64(s.as_bytes())
 }
 
+/// Seed corpora of the libFuzzer targets in `/verif/harness/fuzz-decode` (one directory per target),
+/// written from the same seed pool the check uses. The selector byte in front of the message seeds
+/// follows the `decode` tables of `fuzz_targets/n2n_msg.rs` / `n2c_msg.rs`.
+fn fuzz_corpus(dir: &str) {
+    use seedgen::msgs::Proto as P;
+    use targets::{Family as F, Typed as T};
+    seeds::init(false);
+    let pool = seeds::pool();
+    let n2n = [
+        P::N1HandshakeN2N, P::N1ChainSyncHeader, P::N1ChainSyncBlock, P::N1BlockFetch, P::N1TxSubmission, P::N1KeepAlive,
+        P::N1PeerSharing, P::N2HandshakeN2N, P::N2ChainSyncHeader, P::N2ChainSyncBlock, P::N2BlockFetch, P::N2TxSubmission,
+        P::N2KeepAlive, P::N2PeerSharing, P::N2LeiosNotify, P::N2LeiosFetch,
+    ];
+    let n2c: Vec<F> = vec![
+        F::Msg(P::N1HandshakeN2C), F::Msg(P::N1LocalState), F::Msg(P::N1LocalTxSubmission), F::Msg(P::N1TxMonitor),
+        F::Msg(P::N1LocalMsgSubmission), F::Msg(P::N1LocalMsgNotification), F::Msg(P::N2HandshakeN2C),
+        F::Typed(T::Request), F::Typed(T::BlockQuery), F::Typed(T::SystemStart), F::Typed(T::ChainBlockNumber), F::Typed(T::Point),
+        F::Typed(T::GenesisConfig), F::Typed(T::StakeDistribution), F::Typed(T::FilteredDelegsRewards), F::Typed(T::StakeSnapshots),
+        F::Typed(T::UTxOByAddress), F::Typed(T::AccountState), F::Typed(T::Constitution), F::Typed(T::DRepState),
+        F::Typed(T::ProtocolParam), F::Typed(T::PoolParamsMap), F::Typed(T::PState), F::Typed(T::PoolDistr),
+        F::Typed(T::NonMyopicMemberRewards), F::Typed(T::GovState), F::Typed(T::RatifyState), F::Typed(T::ProposedPPUpdates),
+        F::Typed(T::GovActionStates), F::Typed(T::CommitteeMembersState), F::Typed(T::DRepStates), F::Typed(T::DRepStakeDistr),
+        F::Typed(T::VoteDelegatees), F::Typed(T::QTransactionOutput), F::Typed(T::TxValidationError), F::Typed(T::ConwayLedgerFailure),
+        F::Typed(T::ConwayUtxoWPredFailure), F::Typed(T::UtxoFailure), F::Typed(T::ConwayCertsPredFailure), F::Typed(T::ConwayGovPredFailure),
+    ];
+    let mut counts = std::collections::BTreeMap::new();
+    let mut put = |target: &str, name: &str, bytes: &[u8]| {
+        let d = std::path::Path::new(dir).join(target);
+        std::fs::create_dir_all(&d).expect("corpus dir");
+        std::fs::write(d.join(format!("{:016x}", pvkit::fnv64(name.as_bytes()))), bytes).expect("corpus file");
+        *counts.entry(target.to_string()).or_insert(0usize) += 1;
+    };
+    for s in &pool.seeds {
+        match &s.family {
+            F::Block if s.bytes.len() <= 200_000 => put("block", &s.name, &s.bytes),
+            F::Header => {
+                // block target, header entry: [tag, subtag selector] + bytes
+                for (tag, sub) in [(0u8, 1u8), (0, 2), (1, 0), (5, 0)] {
+                    let mut b = vec![tag, sub];
+                    b.extend_from_slice(&s.bytes);
+                    put("block", &format!("{}:{tag}:{sub}", s.name), &b);
+                }
+            }
+            F::Tx | F::Output => put("tx", &s.name, &s.bytes),
+            F::AddrBytes | F::AddrText | F::ByronBytes | F::ByronText => put("address", &s.name, &s.bytes),
+            F::Msg(p) => {
+                if let Some(i) = n2n.iter().position(|x| x == p) {
+                    let mut b = vec![i as u8];
+                    b.extend_from_slice(&s.bytes);
+                    put("n2n_msg", &s.name, &b);
+                }
+                if let Some(i) = n2c.iter().position(|x| *x == s.family) {
+                    let mut b = vec![i as u8];
+                    b.extend_from_slice(&s.bytes);
+                    put("n2c_msg", &s.name, &b);
+                }
+            }
+            F::Typed(_) => {
+                if let Some(i) = n2c.iter().position(|x| *x == s.family) {
+                    let mut b = vec![i as u8];
+                    b.extend_from_slice(&s.bytes);
+                    put("n2c_msg", &s.name, &b);
+                }
+            }
+            _ => {}
+        }
+    }
+    for (t, n) in counts {
+        println!("{t}: {n} seeds");
+    }
+}
+
 fn main() {
-    // isolated probe child (deep nesting / huge lengths): decode one input and exit; must be
-    // checked before pvkit::main, which owns the argument parsing
+    // isolated probe child (deep nesting / huge lengths): decode and exit; must be checked before
+    // pvkit::main, which owns the argument parsing
     if let Ok(spec) = std::env::var("PV_DECODE_PROBE") {
         c09::probe_child(&spec);
+    }
+    if let Ok(dir) = std::env::var("PV_DECODE_WRITE_CORPUS") {
+        fuzz_corpus(&dir);
+        return;
     }
     pvkit::main(&[CheckDef { id: "C09", level: "exploration", run: c09::run }]);
 }
